@@ -4,12 +4,12 @@ claim("C03", "other",
       "(a) same submissions as the sequential reference (per stage the set of wrapper applications with the origin of every argument, level interval, guard, list-builder and mapper calls) and same walk (control skeleton of the group cursors: loop / branch conditions, which cursor each branch advances); "
       "(b) the dependencies each task declares cover the memory blocks its wrapper calls read/write (effects derived from the wrapper's kernel-call slots and the container classes); "
       "(c) nothing a deferred task dereferences can be dead: firstprivate lists, lambda closures, stage-function frames; (d) the kernel is selected by the executing worker's id inside the task, the per-worker vector is grown before submission, the shared wrapper has no mutable state; "
-      "(e) task-creating stage functions run only inside the joining region of execute(). quick: both OpenMP executors. thorough: + both Specx executors (same rules on task lambdas / SpRead / SpCommutativeWrite) and both StarPU executors (codelet table vs submission, pack/unpack agreement, callback effects vs access modes, handle slot vs block and level, handle index advancing in lock-step with its group iterator, join, per-worker kernel) through declaration-only stub headers. "
+      "(e) task-creating stage functions run only inside the joining region of execute(). Both tiers: both OpenMP executors, both Specx executors (same rules on task lambdas / SpRead / SpCommutativeWrite) and both StarPU executors (codelet table vs submission, pack/unpack agreement, callback effects vs access modes, handle slot vs block and level, handle index advancing in lock-step with its group iterator, join, per-worker kernel) through declaration-only stub headers. "
       "Numerical equality 'to rounding' for non-additive kernels and the behaviour of the real Specx/StarPU runtimes are not decided.",
       "Trusted: clang 14 front end + tbfscan, OpenMP data-sharing semantics as implemented by g++ 12 (closure reached through firstprivate(__closure): -fdump-tree-omplower + ASan replay), the operator role table; Specx/StarPU semantics as documented (stubs only declare names).",
       "capture-lifetime / dependence-vs-effect / submission-summary rules over the clang AST (libTooling)", "DESIGN.md §2 C03, §8")
 claim("C12", "other",
-      "Decides for every executor class (sequential, target/source, OpenMP x2, periodic top trees; thorough: Specx x2, StarPU x2 through declaration stubs): "
+      "Decides for every executor class (sequential, target/source, OpenMP x2, periodic top trees, Specx x2 and StarPU x2 through declaration stubs, in both tiers): "
       "flag->stage map (each stage guarded by exactly its own bit, flags distinct single bits, composite masks = documented unions), stage order, "
       "level-loop intervals normalised with sympy to [U,H-2]/[U,H-1] with U=max(0,arg), P2M/L2P guard H>U, and the write set of each stage from the wrapper's slot-level effect summary. "
       "Together these are the structural content of 'staged runs equal a full run and write only their outputs'; histories are covered because no state other than the tree survives a stage.",
@@ -48,7 +48,7 @@ claim("C18", "other",
 claim("C09", "other",
       "Type-level and who-may-call clauses of target/source mode: (1) compile witness - the source tree has zero result values and empty locals, the target tree empty multipoles, the one-sided near-field operator has no source-result slot and sees source/target headers and data as const (probe kernel instantiated through the sequential and OpenMP target/source executors), so no storage exists in which a source could receive a result, for every input; "
       "(2) the target/source executors call only the one-sided near-field wrapper, build the neighbour list unfiltered, merge in-group part and self list and map onto SOURCE groups with the TARGET group as working group (M2L likewise), P2M/M2M touch only source containers and L2L/L2P only target containers - from argument-origin summaries; (3) the OpenMP variant obeys the C03 lifetime/dependence rules. Exactly-once counting is not decided.",
-      "Trusted: clang 14 + tbfscan, origin resolver, g++/clang++ for the witness; thorough adds the Specx variant through the declaration stub.",
+      "Trusted: clang 14 + tbfscan, origin resolver, g++/clang++ for the witness; the Specx variant through the declaration stub in both tiers; thorough adds clang++ as a second front end.",
       "type-level witnesses + who-may-call / list-flag / container-role rules over executor summaries", "DESIGN.md §2 C09")
 
 claim("C02", "other",
@@ -89,7 +89,7 @@ claim("C11", "other",
 claim("C14", "other",
       "Three agreement clauses: (1) the addresses of the item-count and offset tables computed by the writer (resetBlocksFromSizes) and by the reader of a raw byte buffer (initHeader) are equal as polynomials in (allocated size, NbBlocks, sizeof(long)), the tables are adjacent, do not overlap and end at the allocation end, the allocation is payload + both tables, block pointers are base + recorded offset in both, offsets are the running sum of block sizes; "
       "(2) in each block kind the size function, both viewers and the element iteration derive the row stride from the same GetLeadingDim(quantity, alignment) and the extent is stride x the other quantity, GetLeadingDim rounds up to the alignment; "
-      "(3) getDataPtrsAndSizes(), the raw-memory constructors and the get<X>Ptr/Size accessors (thorough: the StarPU handle registration) use the same slot order and pair each pointer with its own size. These are necessary for a byte copy viewed through the raw-memory constructor to be an equivalent view, for every layout. In-bounds access for every count/size is arithmetic and not decided.",
+      "(3) getDataPtrsAndSizes(), the raw-memory constructors and the get<X>Ptr/Size accessors (and the StarPU handle registration, through the declaration stub) use the same slot order and pair each pointer with its own size. These are necessary for a byte copy viewed through the raw-memory constructor to be an equivalent view, for every layout. In-bounds access for every count/size is arithmetic and not decided.",
       "Trusted: clang 14 + tbfscan, sympy polynomial normal form; StarPU part through the declaration stub.",
       "writer/reader address polynomials, stride-source and slot-order agreement over the clang AST", "DESIGN.md §2 C14")
 
@@ -123,7 +123,7 @@ for p in []:
     NA[p] = _todo
 claim("C01", "other",
       "Exactly-once is a counting law over all particle sets and tree shapes; which cells the list builders enumerate (the 3^Dim / 2^Dim arithmetic) and that the shared cursor is right in the first place are value-level and NOT decided. Decided are five structural necessary conditions, each visible in the shape of the code on every path: "
-      "(1) in every executor (sequential, OpenMP, single tree and target/source; thorough: Specx, StarPU) the upward pass M2M and the downward pass L2L pair child groups with parent groups by the same cursor - loop and branch conditions, which cursor each branch advances, where the operator is applied - and P2M / L2P walk leaf and particle groups in the same lock-step; "
+      "(1) in every executor (sequential, OpenMP, Specx, StarPU; single tree and target/source) the upward pass M2M and the downward pass L2L pair child groups with parent groups by the same cursor - loop and branch conditions, which cursor each branch advances, where the operator is applied - and P2M / L2P walk leaf and particle groups in the same lock-step; "
       "(2) inside a group pair the wrapper's M2M and L2L share start position, advance, child-counter reset and flush of the last parent (roles derived from the start-position lookups); "
       "(3) a list builder appends each interaction to exactly one of (in-group, out-of-group): the appends are the then / else sides of one branch, same object, out-of-group side not filtered further; "
       "(4) the group mapper sorts its list by SrcFirst (source index primary key) before the first binary search, every search over the list compares that key only, both mapper variants have the same control skeleton; "
